@@ -93,9 +93,16 @@ def apply_rw(rng, spec, name):
         pname = f'aa_dflt{rng.randint(0, 10 ** 6)}'
         dv = rng.choice([None, 0, 'x', [1, 2], {'k': 'v'}, 1.5, True])
         if all(p['name'] != pname for p in c['params']) and pname not in pdata:
-            c['params'].insert(rng.randint(0, len(c['params'])), {'name': pname, 'default': dv, 'dpd': True})
-            if rng.random() < 0.5:
-                pdata[pname] = copy.deepcopy(dv)
+            if rng.random() < 0.25:
+                # a `dtype=Path` parameter whose default is a Path object; the config may spell the default out as a string
+                txt = rng.choice(['some/dir', '/abs/x', 'a', 'data/v1.0/in'])
+                c['params'].insert(rng.randint(0, len(c['params'])), {'name': pname, 'default': {'$path': txt}, 'dpd': True, 'dtype': 'path'})
+                if rng.random() < 0.6:
+                    pdata[pname] = txt
+            else:
+                c['params'].insert(rng.randint(0, len(c['params'])), {'name': pname, 'default': dv, 'dpd': True})
+                if rng.random() < 0.5:
+                    pdata[pname] = copy.deepcopy(dv)
         spec['module'] = gen.fresh_modname()
     elif name == 'to_context':
         keys = [k for k in pdata if k != 'tasks']
